@@ -71,7 +71,13 @@ func (x *Exec) binop(st *State, fr *Frame, in *ssa.BinOp) Val {
 			r = Eq(x.term(a), x.term(b))
 		default:
 			if _, isPtr := t.Underlying().(*types.Pointer); isPtr {
-				r = Eq(x.ptrTermCmp(a), x.ptrTermCmp(b))
+				if cv, ok := in.X.(*ssa.Const); ok && cv.Value == nil {
+					r = "(= (p_reg " + x.ptrTermCmp(b) + ") 0)"
+				} else if cv, ok := in.Y.(*ssa.Const); ok && cv.Value == nil {
+					r = "(= (p_reg " + x.ptrTermCmp(a) + ") 0)"
+				} else {
+					r = Eq(x.ptrTermCmp(a), x.ptrTermCmp(b))
+				}
 			} else if _, isSl := t.Underlying().(*types.Slice); isSl {
 				// only comparison with nil is legal
 				o := a
